@@ -436,7 +436,7 @@ func build(c *Case) (*scenario, error) {
 		}
 
 		srv := &sim.NCServer{
-			Hello:   sim.HelloSpec{Caps: caps, SessionID: "5", Layout: "pretty", TrailLF: true}.Render(),
+			Hello:   sim.HelloSpec{Caps: append(append([]string{}, caps...), sim.StdCaps...), SessionID: "5", Layout: "pretty", TrailLF: true}.Render(),
 			Version: c.Version,
 			Echo:    c.Echo,
 		}
